@@ -292,6 +292,15 @@ def audit_proofs(ctx, prop_file, theorems):
         ctx.proof["log"] = out[-4000:]
         ctx.proof["failed_at"] = "Print Assumptions"
         return False
+    if ctx.tier == "thorough":
+        rc, out = C.sh(["coqchk", "-o", "-silent", "-Q", "theories", "HW", "-Q", "gen", "HWGen", mod], cwd=C.COQ, timeout=3000)
+        ax = re.search(r"\* Axioms:\s*(.*?)\n\s*\n", out, re.S)
+        ctx.extra["coqchk"] = {"cmd": "coqchk -o -silent " + mod, "exit": rc, "axioms": (ax.group(1).strip() if ax else "?")}
+        if rc != 0 or not ax or ax.group(1).strip() != "<none>":
+            ctx.proof["ok"] = False
+            ctx.proof["log"] = out[-3000:]
+            ctx.proof["failed_at"] = "coqchk " + mod
+            return False
     ctx.proof["discharged"] = nthm
     ctx.proof["ok"] = True
     ctx.extra["proof_wall_s"] = round(time.time() - t0, 2)
